@@ -12,7 +12,7 @@ Decided clauses (resolved MIR, all paths):
      fallback is the same program.
 Not decided: timing, slow formatter, pipe-buffer deadlock (OS scheduling); rustfmt preserving the token sequence."""
 from engine_mir import Mir, op_local, op_place
-from mirutil import cname, method, guards, truthy_only, falsy_only, panic_sites, canon
+from mirutil import feasible_reach, cname, method, guards, truthy_only, falsy_only, panic_sites, canon
 from rules.c18 import rustfmt_gated
 
 IDENTITY_OK = (
@@ -208,7 +208,7 @@ def run(rep):
                     rep.ok('C19.d.stdin-closed', f'stdin-handed-on:{fn}', body.where(g), f'_{L} is moved on (or dropped) in the block that defines it')
                     continue
                 succ = [x for x in body.succ(g)] if hasattr(body, 'succ') else None
-                r = body.reachable_from([g], avoid=kills)
+                r = feasible_reach(body, [g], avoid=kills)       # a helper's `?` residual correlates with the caller's `?` on its result
                 open_at = [w for w in waits if w in r]
                 rep.check(not open_at, 'C19.d.stdin-closed', f'stdin-open-at-wait:{fn}', body.where(open_at[0] if open_at else g),
                           f'a handle to the child\'s stdin (local _{L}: {body.locals[L]}) taken in {fn} can still be alive when the child is waited for: the formatter never sees '
